@@ -23,6 +23,10 @@ Definition peek_is (s : stream) (c : N) : bool := match speek s with Some x => N
 Definition empty_range : range := mkRange (-1) (-1).
 Definition empty_hunk : hunk := mkHunk empty_range empty_range [].
 
+(* line.substr(4, line.size() - 9), size_t arithmetic *)
+Definition range_substr (line : list N) : list N :=
+  if Nat.leb 9 (length line) then firstn (length line - 9) (skipn 4 line) else skipn 4 line.
+
 (* ---- header scan ---- *)
 Inductive looks := LKUnknown | LKUnified | LKNormal | LKContext.
 Definition looks_eqb (a b : looks) : bool :=
@@ -164,7 +168,12 @@ Definition header_step (strip : Z) (st : hstate) (line : list N) : res (hstate +
         (* context *)
         if fmt_unknown_or p1 FContext then
           if looks_eqb last LKContext && starts_with line (bs "*** ") then
-            Ok (inr (mk (set_fmt p1 FContext) LKUnknown hk2 (h_first st)))
+            (* the old range of the first context hunk is taken into the hunk used for the Add inference *)
+            let hk3 := if ends_with line (bs " ****")
+                       then let '(_, st', _) := parse_context_range (rstart (oldr hk2)) 0 (range_substr line) in
+                            mkHunk (mkRange st' (rcount (oldr hk2))) (newr hk2) (body hk2)
+                       else hk2 in
+            Ok (inr (mk (set_fmt p1 FContext) LKUnknown hk3 (h_first st)))
           else if starts_with line (bs "***************") then
             Ok (inl (mk p1 LKContext hk2 lines))
           else Ok (inl (mk p1 LKUnknown hk2 (h_first st)))
@@ -209,8 +218,8 @@ Definition parse_patch_header (p : patch) (strip : Z) (s : stream) : res (bool *
   do s3 <- skip_lines (h_first st - 1) s2;
   let p2 := match poper p1 with
             | OpChange =>
-                if Z.eqb (rstart (newr (h_hunk st))) 0 then set_oper p1 OpDelete
-                else if Z.eqb (rstart (oldr (h_hunk st))) 0 then set_oper p1 OpAdd
+                if Z.eqb (rstart (newr (h_hunk st))) 0 || str_eqb (new_path p1) devnull_path then set_oper p1 OpDelete
+                else if Z.eqb (rstart (oldr (h_hunk st))) 0 || str_eqb (old_path p1) devnull_path then set_oper p1 OpAdd
                 else p1
             | _ => p1
             end in
@@ -328,10 +337,6 @@ Definition set_last_nonl_c (l : list (cxop * line)) : list (cxop * line) :=
 
 Definition ctx_check_nonl (ls : list (cxop * line)) (s : stream) : list (cxop * line) * stream :=
   if negb (is_nil ls) && peek_is s 92 then (set_last_nonl_c ls, snd (sget_line s)) else (ls, s).
-
-(* line.substr(4, line.size() - 9), size_t arithmetic *)
-Definition range_substr (line : list N) : list N :=
-  if Nat.leb 9 (length line) then firstn (length line - 9) (skipn 4 line) else skipn 4 line.
 
 Definition is_old_range_line (line : list N) : bool := starts_with line (bs "*** ") && ends_with line (bs " ****").
 Definition is_new_range_line (line : list N) : bool := starts_with line (bs "--- ") && ends_with line (bs " ----").
